@@ -7,6 +7,7 @@ import RubyTi.Model.Sig
 import RubyTi.Model.Rbs
 import RubyTi.Model.C2json
 import RubyTi.Model.Suggest
+import RubyTi.Model.Namespace
 
 /-! Line-protocol driver over the executable model definitions (core-only, built as `lean_exe`).
 One op per input line, one answer line per op; the answer format is the one
@@ -188,6 +189,24 @@ def opSuggest (args : String) : String :=
     | _, _, _ => "BAD-ARGS"
   | _ => "BAD-ARGS"
 
+def nsSegs (frame : String) : List Str :=
+  if frame == "" || frame == "-" then [] else (Config.splitNS frame.toList).reverse
+
+/-- findns <frame> <cls> | frame~cls;... -/
+def opFindNS (args : String) : String :=
+  match args.splitOn " | " with
+  | [head, tbl] =>
+    match head.splitOn " " with
+    | [frame, cls] =>
+      let t : Namespace.Defined := ((tbl.trimAscii.toString.splitOn ";").filter (· != "")).filterMap fun e =>
+        match e.splitOn "~" with
+        | [f, c] => some (nsSegs f, c.toList)
+        | _ => none
+      let r := Namespace.findDefined t cls.toList (nsSegs frame)
+      "[" ++ String.ofList (Config.joinNS r.reverse) ++ "]"
+    | _ => "BAD-ARGS"
+  | _ => "BAD-ARGS"
+
 def rbsParam (s : String) : Rbs.Param :=
   if s == "_" then none else some (((s.splitOn ",").filter (· != "")).map String.toList)
 
@@ -244,6 +263,7 @@ def dispatch (line : String) : String :=
   else if name == "prio" then opPrio args
   else if name == "sortsig" then opSortSig args
   else if name == "suggest" then opSuggest args
+  else if name == "findns" then opFindNS args
   else if name == "rbsargs" then opRbsArgs args
   else if name == "c2jargs" then opC2j args
   else if name == "pdef" then opPDef args
